@@ -96,6 +96,24 @@ def fam_trailing():
 FAMILIES = [fam_rebind(), fam_rebind_norecur(), fam_nilyield(), fam_trailing(), fam_counter(), fam_fib(), fam_local(), fam_outer(), fam_norecur(), fam_infinite(), fam_twoyields(), fam_kw()]
 
 
+# programs with a hand-derived answer: what the NEXT round sees is exactly what `new` / the most recent `recur` bound, in the
+# scope where the literal was written (not the scope where `new` is called, not the previous round's scope)
+EXPECT = [
+    ("argvar_not_rebound_by_recur", "gen := <{|i| yield [i, \\2] if i < 3; recur(i + 1)}>\nit := gen.new(0, 'extra)\nit.next.p\n1.try.{|_| it.next}.A.p\n",
+     '[0, "extra"]\n[nil, [NameErr: name `\\2` is not defined]]\n'),
+    ("kwarg_not_passed_by_recur", "gen2 := <{|i, step: 1| yield [i, \\step] if i < 9; recur(i + step)}>\nit2 := gen2.new(0, step: 3)\nit2.next.p\n1.try.{|_| it2.next}.A.p\n",
+     "[0, 3]\n[nil, [NameErr: name `\\step` is not defined]]\n"),
+    ("local_of_an_earlier_round", "gen3 := <{|i| first := 5 if i == 0; yield [i, first] if i < 3; recur(i + 1)}>\nit3 := gen3.new(0)\nit3.next.p\n1.try.{|_| it3.next}.A.p\n",
+     "[0, 5]\n[nil, [NameErr: name `first` is not defined]]\n"),
+    ("iterator_inside_iterator", "outer := <{|i| inner := <{|j| yield [i, j] if j < 2; recur(j + 1)}>.new(0); yield inner.A if i < 2; recur(i + 1)}>\n"
+     "o := outer.new(0)\no.next.p\no.next.p\n1.try.{|_| o.next}.A.p\nouter.new(0).A.p\n",
+     "[[0, 0], [0, 1]]\n[[1, 0], [1, 1]]\n[nil, [StopIterErr: iter stopped]]\n[[[0, 0], [0, 1]], [[1, 0], [1, 1]]]\n"),
+    ("literal_from_a_factory", "mk := {|n| <{|i| yield i * n if i < 3; recur(i + 1)}>}\ng := mk(10)\nn := 7\ng.new(1).A.p\n", "[10, 20]\n"),
+    ("new_called_in_a_shadowing_helper", "lim := 2\nlit := <{|i| yield i if i < lim; recur(i + 1)}>\nhelper := {|g, lim| g.new(0).A}\nhelper(lit, 5).p\nlit.new(0).A.p\n",
+     "[0, 1]\n[0, 1]\n"),
+]
+
+
 def show(x):
     return "nil" if x is None else str(x)
 
@@ -179,6 +197,8 @@ def main(chk):
     rng = chk.rng
     st0 = rng.getstate()
     rng.seed(31337)
+    for name, prog, exp in EXPECT:
+        cases.append(("expect:" + name, prog, exp))
     for fam in FAMILIES:            # systematic part (seed-independent)
         for i in range(12):
             prog, exp = gen_history(rng, fam, 8)
@@ -204,13 +224,14 @@ def main(chk):
         elif r["verdict"] == "disagree":
             model_only.append(r)
     chk.cov["input_distribution"] = hist
-    chk.cov["rule"] = ("%d iterator-body families (counter, two-parameter recurrence, local assignment before the yield, closure over an outer "
+    chk.cov["rule"] = ("%d programs with hand-derived answers (names a later round must NOT see: argvars / kwargs / locals of earlier rounds; an iterator inside an "
+                       "iterator; a literal returned by a factory; `new` called in a scope that shadows the body's free variable); %d iterator-body families (counter, two-parameter recurrence, local assignment before the yield, closure over an outer "
                        "variable, no recur, unguarded infinite, two yields, keyword parameter, a body that rebinds a variable it reads with and "
                        "without recur, a first yield that can be nil, a trailing statement after the yield) x histories of 4-10 operations (30 thorough) over 2-5 "
                        "iterators derived from one literal: new with arguments, next (also twice), A, list chain, reduce chain, _iter copies. "
                        "Oracle: one explicit state machine per iterator (next returns the first yield and applies recur; StopIterErr exactly when "
                        "the guard is false, repeatedly; A/chains list what next would return without advancing anything). Built-in iterators "
-                       "(arr/int/...) share their Go closure across _iter copies and are outside the property." % len(FAMILIES))
+                       "(arr/int/...) share their Go closure across _iter copies and are outside the property." % (len(EXPECT), len(FAMILIES)))
     for i in (0, len(progs) // 2, len(progs) - 1):
         chk.sample({"program": progs[i], "expected_out": cases[i][2], "impl_out": res[i]["impl"].get("out"), "model_verdict": res[i]["verdict"]})
     return pancore.conclude(chk, ok, broken, "Props/C14.v", res, viol, model_only, "C14",
